@@ -5,6 +5,11 @@ CLAIMED['C20'] = (
     'Static rule discharge: for every StateValidityChecker/Goal/GoalRegion/GoalSampleableRegion impl of oxmpl-py and oxmpl-js the set of values the adapter can return is computed through closures, with_gil and Option/Result adaptors and must be {strict extraction of the callback result, fail-closed constant}. Exact for the stated policy on every state and failure position; does not execute Python.',
     'Trusted: rustc MIR, the mirfacts serialisation, documented strictness of pyo3 extract::<bool>/<f64> and JsValue::as_bool/as_f64; "identical to callbacks returning False" follows from the shared planner code and is not re-proved.',
     'DESIGN.md section 4, C20')
+CLAIMED['C14'] = (
+    'recognised-construction rules over MIR (single unmodified uniform primitives over the stored bounds; cube -> ball rejection -> normalise -> cone rejection derivation for SO(3))',
+    'PARTIAL CLAIM: decides which construction each uniform sampler is, not a goodness-of-fit statistic. R^n / SO(2): the value stored for every dimension / the angle is one random_range draw over exactly that dimension\'s stored bounds, from the caller\'s generator, stored unmodified, one draw per dimension. SO(3): four separate draws from one symmetric constant range on the caller\'s generator, candidate = draws / sqrt(sum of their squares) with every draw used once, built only under "sum of squares <= 1", returned unmodified and only under distance(centre, candidate) <= max_angle on that very candidate, every rejection loops back to fresh draws (any other shape is reported as an unrecognised construction). Compound / SE(2) / SE(3): every component sampled once by its own sampler with the forwarded generator (C13 rules on sample_uniform). Each clause is a necessary condition whose violation biases the distribution; that the recognised constructions are uniform is the textbook argument, not re-proved.',
+    'Trusted: rustc MIR, mirfacts; rand::Rng::random_range is uniform on its range; consecutive draws of one generator are independent; floating-point granularity ignored.',
+    'DESIGN.md section 10.11')
 CLAIMED['C07'] = (
     'who-may-call + generator-identity dataflow + take/restore pairing + clock taint over MIR',
     'Static non-interference rules decided for every call history: (source) nondeterminism sources (OS/thread rng, SystemTime, RandomState, hash iteration, pointer-to-int) are called on planning paths only in the unseeded fallback of the rng field; (flow) every rng consumer reachable from the planner API draws from the planner generator or forwards its caller\'s, RngCore wrappers forward faithfully; (restore) a generator taken from the rng field is stored back on every normal exit; (clock) Instant values reach only the deadline comparison; (seed) PlannerConfig.seed reaches seed_from_u64 unmodified and lands in the rng field. Does not compare two executions.',
